@@ -13,6 +13,8 @@
 package main
 
 import (
+	"bufio"
+	"encoding/json"
 	"fmt"
 	"os"
 	"path/filepath"
@@ -32,6 +34,8 @@ import (
 )
 
 const avlPath = "gno.land/p/nt/avl/v0"
+
+const maxReported = 8 // mismatches re-run and reported per driver run (the rest is counted)
 
 func loadPkg(root, path string) appenv.Pkg {
 	dir := filepath.Join(root, "examples", path)
@@ -95,11 +99,17 @@ import (
 	"gno.land/p/nt/avl/v0"
 )
 
-func ki(k string) string {
+var kidx = map[string]string{}
+
+func init() {
 	for i, x := range keys {
-		if x == k {
-			return strconv.Itoa(i + 1)
-		}
+		kidx[x] = strconv.Itoa(i + 1)
+	}
+}
+
+func ki(k string) string {
+	if s, ok := kidx[k]; ok {
+		return s
 	}
 	return "?" + strconv.Quote(k)
 }
@@ -148,12 +158,52 @@ func (x *T) walk() {
 	println(s)
 }
 
+// proj reads the abstract state back through the public Tree methods: size, full ascending and
+// descending iteration, every index, and Has/Get for the keys in the window lo..hi.
+func (x *T) proj(lo, hi int) {
+	s := "P"
+	if !try(func() {
+		n := x.t.Size()
+		s += " z=" + strconv.Itoa(n) + " it="
+		x.t.Iterate("", "", func(k string, v any) bool { s += ki(k) + "=" + vs(v) + ","; return false })
+		s += " rit="
+		x.t.ReverseIterate("", "", func(k string, v any) bool { s += ki(k) + "=" + vs(v) + ","; return false })
+		s += " idx="
+		for i := 0; i < n; i++ {
+			k, v := x.t.GetByIndex(i)
+			s += ki(k) + "=" + vs(v) + ","
+		}
+		s += " hg="
+		for k := lo; k <= hi; k++ {
+			s += strconv.Itoa(k) + ":" + strconv.FormatBool(x.t.Has(keys[k-1])) + ":" + vs(x.t.Get(keys[k-1])) + ","
+		}
+	}) {
+		s += " PANIC"
+	}
+	println(s)
+}
+
 func (x *T) set(k, v int) {
 	if !try(func() { println("S", x.t.Set(keys[k-1], v)) }) {
 		println("S PANIC")
 	}
 	try(func() { x.root, _ = x.root.Set(keys[k-1], v) })
 	x.walk()
+	x.proj(win(k))
+}
+
+func win(k int) (int, int) {
+	if len(keys) <= 8 {
+		return 1, len(keys)
+	}
+	lo, hi := k-2, k+2
+	if lo < 1 {
+		lo = 1
+	}
+	if hi > len(keys) {
+		hi = len(keys)
+	}
+	return lo, hi
 }
 
 func (x *T) remove(k int) {
@@ -165,6 +215,7 @@ func (x *T) remove(k int) {
 	}
 	try(func() { x.root, _, _, _ = x.root.Remove(keys[k-1]) })
 	x.walk()
+	x.proj(win(k))
 }
 
 func (x *T) get(k int) {
@@ -277,6 +328,31 @@ func walkLine(st map[string]any) string {
 		}
 	}
 	return s
+}
+
+// projLine is what proj() must print for the spec's abstract state (items) and touched key k.
+func projLine(st map[string]any, k, nk int) string {
+	items := pairs(st["items"])
+	val := map[int]int{}
+	it, rit := "", ""
+	for _, x := range items {
+		val[x.k] = x.v
+		it += fmt.Sprintf("%d=%d,", x.k, x.v)
+		rit = fmt.Sprintf("%d=%d,", x.k, x.v) + rit
+	}
+	lo, hi := 1, nk
+	if nk > 8 {
+		lo, hi = max(k-2, 1), min(k+2, nk)
+	}
+	hg := ""
+	for q := lo; q <= hi; q++ {
+		if v, ok := val[q]; ok {
+			hg += fmt.Sprintf("%d:true:%d,", q, v)
+		} else {
+			hg += fmt.Sprintf("%d:false:nil,", q)
+		}
+	}
+	return fmt.Sprintf("P z=%d it=%s rit=%s idx=%s hg=%s", len(items), it, rit, it, hg)
 }
 
 func isMut(s mbt.Step) bool { return s.Act() == "Set" || s.Act() == "Remove" }
@@ -504,6 +580,7 @@ func (g *group) compile() {
 		if isMut(s) {
 			lastSt = s["st"].(map[string]any)
 			g.lines = append(g.lines, lineRef{beh: first, step: i, exp: walkLine(lastSt), kind: "walk", st: lastSt, act: s.Act()})
+			g.lines = append(g.lines, lineRef{beh: first, step: i, exp: projLine(lastSt, s.Int("k"), nkeys), kind: "proj", act: s.Act()})
 		}
 	}
 	for _, e := range g.extra {
@@ -517,14 +594,14 @@ func (g *group) compile() {
 }
 
 type runner struct {
-	e      *appenv.Env
-	acct   *appenv.Account
-	num    uint64
-	seq    uint64
-	keys   []string
-	nruns  int
-	gas    int64
-	intx   int
+	e     *appenv.Env
+	acct  *appenv.Account
+	num   uint64
+	seq   uint64
+	keys  []string
+	nruns int
+	gas   int64
+	intx  int
 }
 
 func (r *runner) keysDecl() string {
@@ -552,7 +629,12 @@ func (r *runner) run(gs []*group) (map[int][]string, string) {
 		r.e.BeginBlock()
 	}
 	msg := vm.NewMsgRun(r.acct.Addr, nil, []*std.MemFile{{Name: "main.gno", Body: sb.String()}})
-	tx := appenv.SignTx([]std.Msg{msg}, 500_000_000_000, 1_000_000, appenv.ChainID, r.acct, r.num, r.seq)
+	nl := 0
+	for _, g := range gs {
+		nl += len(g.lines)
+	}
+	// gas budget: ~20x what the unchanged package needs (measured <= 2M gas per printed line)
+	tx := appenv.SignTx([]std.Msg{msg}, 3_000_000_000+int64(nl)*40_000_000, 1_000_000, appenv.ChainID, r.acct, r.num, r.seq)
 	t0 := time.Now()
 	res := r.e.Deliver(tx)
 	if os.Getenv("AVL_TIMING") != "" {
@@ -569,6 +651,9 @@ func (r *runner) run(gs []*group) (map[int][]string, string) {
 		r.intx = 0
 	}
 	if !res.IsOK() {
+		if _, oog := res.Error.(std.OutOfGasError); oog {
+			return nil, "out of gas"
+		}
 		return nil, fmt.Sprintf("%v | %s", res.Error, res.Log)
 	}
 	out := map[int][]string{}
@@ -605,9 +690,14 @@ func compare(g *group, got []string) []failure {
 		add(g.lines[0].beh, "C50:output", fmt.Sprintf("program printed %d lines, expected %d: %q", len(got), len(g.lines), got))
 		return fs
 	}
+	lastWalk := "W"
 	for i, lr := range g.lines {
 		l := got[i]
 		switch lr.kind {
+		case "proj":
+			if l != lr.exp {
+				add(lr.beh, "C50:"+lr.act+":state", fmt.Sprintf("after step %d %s the tree read back through Size/Iterate/ReverseIterate/GetByIndex/Has/Get is %q, spec %q", lr.step, lr.act, l, lr.exp))
+			}
 		case "reply":
 			if l != lr.exp {
 				key := "C50:" + lr.act + ":reply"
@@ -617,16 +707,20 @@ func compare(g *group, got []string) []failure {
 				add(lr.beh, key, fmt.Sprintf("step %d %s: real %q, spec %q", lr.step, lr.act, l, lr.exp))
 			}
 		case "walk", "final":
-			if key, what := checkTree(l, pairs(lr.st["items"])); key != "" {
-				if lr.kind == "final" {
-					// the tree passed this check right after the last mutation: a read changed it
-					if len(g.extra) > 0 {
-						for _, e := range g.extra {
-							add(e.beh, "C50:read-mutates", fmt.Sprintf("after the reads the tree is damaged (%s): %s", key, what))
-						}
-						continue
+			if lr.kind == "final" {
+				// reads must leave the tree as the last mutation left it
+				if l != lastWalk {
+					for _, e := range g.extra {
+						add(e.beh, "C50:read-mutates", fmt.Sprintf("the walk after the reads %q differs from the walk before them %q", l, lastWalk))
+					}
+					if len(g.extra) == 0 {
+						add(lr.beh, "C50:read-mutates", fmt.Sprintf("the walk after the reads %q differs from the walk before them %q", l, lastWalk))
 					}
 				}
+				continue
+			}
+			lastWalk = l
+			if key, what := checkTree(l, pairs(lr.st["items"])); key != "" {
 				add(lr.beh, key, fmt.Sprintf("after step %d %s: %s (walk %q)", lr.step, lr.act, what, l))
 			} else if l != lr.exp {
 				drift++
@@ -640,41 +734,67 @@ func compare(g *group, got []string) []failure {
 }
 
 var (
+	nkeys       int
 	drift       int
 	driftSample string
 )
 
-func main() {
-	f := mbt.ParseFlags()
-	nk := 6
-	for _, kv := range strings.Split(f.Extra, ";") {
-		p := strings.SplitN(kv, "=", 2)
-		if len(p) == 2 && p[0] == "nk" {
-			nk, _ = strconv.Atoi(p[1])
-		}
-	}
-	root := gnoenv.RootDir()
-	if _, err := os.Stat(filepath.Join(root, "examples", avlPath, "node.gno")); err != nil {
-		mbt.Die("gno root %q has no avl package: %v", root, err)
-	}
-	behs, err := mbt.ReadBehaviours(f.In)
+// readSets reads the -in file: a line holding a JSON object {"nk":N,"label":"..."} starts a new
+// set (key table of N keys); every other line is one behaviour (JSON array of steps) of the
+// current set. Without a directive all behaviours form one set with the nk of -x.
+type bset struct {
+	nk    int
+	label string
+	behs  [][]mbt.Step
+}
+
+func readSets(path string, nk int) []*bset {
+	fh, err := os.Open(path)
 	if err != nil {
 		mbt.Die("%v", err)
 	}
-	dep := appenv.NewAccount("deployer")
-	acct := appenv.NewAccount("a")
-	e, err := appenv.New(appenv.Options{
-		MaxGas:   1_000_000_000_000,
-		Balances: map[crypto.Address]int64{dep.Addr: 1e15, acct.Addr: 1e15},
-		Deployer: dep,
-		Pkgs:     []appenv.Pkg{loadPkg(root, avlPath)},
-	})
-	if err != nil {
-		mbt.Die("app: %v", err)
+	defer fh.Close()
+	var sets []*bset
+	sc := bufio.NewScanner(fh)
+	sc.Buffer(make([]byte, 1<<20), 1<<28)
+	for sc.Scan() {
+		line := strings.TrimSpace(sc.Text())
+		if line == "" {
+			continue
+		}
+		if line[0] == '{' {
+			var d struct {
+				NK    int    `json:"nk"`
+				Label string `json:"label"`
+			}
+			if err := json.Unmarshal([]byte(line), &d); err != nil || d.NK <= 0 {
+				mbt.Die("bad directive %q", line)
+			}
+			sets = append(sets, &bset{nk: d.NK, label: d.Label})
+			continue
+		}
+		var steps []mbt.Step
+		if err := json.Unmarshal([]byte(line), &steps); err != nil {
+			mbt.Die("bad behaviour line: %v", err)
+		}
+		if len(sets) == 0 {
+			sets = append(sets, &bset{nk: nk, label: "default"})
+		}
+		cur := sets[len(sets)-1]
+		cur.behs = append(cur.behs, steps)
 	}
-	ai := e.Account(acct.Addr)
-	r := &runner{e: e, acct: acct, num: ai.Num, seq: ai.Seq, keys: keyTable(nk)}
+	if err := sc.Err(); err != nil {
+		mbt.Die("%v", err)
+	}
+	return sets
+}
 
+func runSet(r *runner, set *bset) {
+	nk, behs := set.nk, set.behs
+	nkeys = nk
+	r.keys = keyTable(nk)
+	drift, driftSample = 0, ""
+	nruns0, gas0 := r.nruns, r.gas
 	groups := mkGroups(behs)
 	for _, g := range groups {
 		g.compile()
@@ -684,8 +804,13 @@ func main() {
 	}
 	failed := map[int]bool{}
 	steps := 0
+	unreported := 0
 	report := func(fl failure) {
 		if failed[fl.beh] {
+			return
+		}
+		if len(failed) >= maxReported {
+			unreported++
 			return
 		}
 		// re-run the single behaviour from a fresh tree in its own transaction
@@ -719,9 +844,12 @@ func main() {
 			// the whole program aborted (a panic outside try, gas, type error): localise per group
 			for _, g := range batch {
 				o1, e1 := r.run([]*group{g})
-				if e1 != "" {
-					report(failure{"C50:abort", "program aborted: " + e1, g.behs[0]})
+				if e1 == "out of gas" {
+					report(failure{"C50:no-answer", "the calls did not finish within 20x the gas the unchanged package needs", g.behs[0]})
 					continue
+				}
+				if e1 != "" {
+					mbt.Die("generated program does not run (not a verdict): %s", e1)
 				}
 				for _, fl := range compare(g, o1[g.id]) {
 					report(fl)
@@ -736,13 +864,46 @@ func main() {
 			}
 		}
 	}
+	if len(behs) > 0 {
+		mbt.Sample(map[string]any{"nk": nk, "steps": behs[len(behs)/2]})
+	}
+	mbt.Summary(map[string]any{"set": set.label, "behaviours": len(behs), "replays": len(behs), "replays_ok": len(behs) - len(failed) - unreported,
+		"groups": len(groups), "msgruns": r.nruns - nruns0, "lines": steps, "gas": r.gas - gas0, "unreported_failures": unreported,
+		"shape_drift": drift, "drift_sample": driftSample})
+}
+
+func main() {
+	f := mbt.ParseFlags()
+	nk := 6
+	for _, kv := range strings.Split(f.Extra, ";") {
+		p := strings.SplitN(kv, "=", 2)
+		if len(p) == 2 && p[0] == "nk" {
+			nk, _ = strconv.Atoi(p[1])
+		}
+	}
+	root := gnoenv.RootDir()
+	if _, err := os.Stat(filepath.Join(root, "examples", avlPath, "node.gno")); err != nil {
+		mbt.Die("gno root %q has no avl package: %v", root, err)
+	}
+	sets := readSets(f.In, nk)
+	dep := appenv.NewAccount("deployer")
+	acct := appenv.NewAccount("a")
+	e, err := appenv.New(appenv.Options{
+		MaxGas:   1_000_000_000_000,
+		Balances: map[crypto.Address]int64{dep.Addr: 1e15, acct.Addr: 1e15},
+		Deployer: dep,
+		Pkgs:     []appenv.Pkg{loadPkg(root, avlPath)},
+	})
+	if err != nil {
+		mbt.Die("app: %v", err)
+	}
+	ai := e.Account(acct.Addr)
+	r := &runner{e: e, acct: acct, num: ai.Num, seq: ai.Seq}
+	for _, set := range sets {
+		runSet(r, set)
+	}
 	if e.InBlock {
 		e.EndBlockCommit()
 	}
-	for i := 0; i < len(behs) && i < 2; i++ {
-		mbt.Sample(map[string]any{"nk": nk, "steps": behs[i]})
-	}
-	mbt.Summary(map[string]any{"behaviours": len(behs), "replays": len(behs), "replays_ok": len(behs) - len(failed),
-		"groups": len(groups), "msgruns": r.nruns, "lines": steps, "gas": r.gas, "shape_drift": drift, "drift_sample": driftSample})
 	mbt.Flush()
 }
